@@ -328,3 +328,49 @@ func init() {
 		}
 	}
 }
+
+// fmt.Sscanf on concrete input and format: the real implementation, writing into the interpreter's cells.
+func init() {
+	externals["fmt.Sscanf"] = func(fr *frame, args []value) value {
+		in, ok1 := args[0].(string)
+		format, ok2 := args[1].(string)
+		if !ok1 || !ok2 {
+			unsupported("fmt.Sscanf on symbolic input")
+		}
+		ptrs := args[2].([]value)
+		gos := make([]interface{}, len(ptrs))
+		for i, p := range ptrs {
+			cell := p.(iface).v.(*value)
+			switch (*cell).(type) {
+			case int64:
+				gos[i] = new(int64)
+			case string:
+				gos[i] = new(string)
+			case int:
+				gos[i] = new(int)
+			case uint64:
+				gos[i] = new(uint64)
+			default:
+				unsupported("fmt.Sscanf into %T", *cell)
+			}
+		}
+		n, err := fmt.Sscanf(in, format, gos...)
+		for i, p := range ptrs {
+			cell := p.(iface).v.(*value)
+			switch g := gos[i].(type) {
+			case *int64:
+				*cell = *g
+			case *string:
+				*cell = *g
+			case *int:
+				*cell = *g
+			case *uint64:
+				*cell = *g
+			}
+		}
+		if err != nil {
+			return tuple{n, callByName(fr, "errors", "New", []value{err.Error()})}
+		}
+		return tuple{n, iface{}}
+	}
+}
